@@ -34,6 +34,7 @@ def verify_contract(contract: Contract, tier="quick", seed=0, known_regions=None
     t0 = time.time()
     timeout = contract.timeout_ms or (10000 if tier == "quick" else 60000)
     known_regions = known_regions or {}
+    budget = getattr(contract, "budget_s", None) or (150 if tier == "quick" else 1500)
     res = {
         "contract": contract.cid,
         "prop": contract.prop,
@@ -65,14 +66,22 @@ def verify_contract(contract: Contract, tier="quick", seed=0, known_regions=None
             prefix = work.pop()
             if res["paths"] + res["paths_dropped"] > MAX_PATHS:
                 raise Unsupported("more than %d paths" % MAX_PATHS)
+            if time.time() - t0 > budget:
+                raise Unsupported("wall-clock budget of %ds for one contract exhausted after %d paths" % (budget, res["paths"]))
             ctx = Ctx(prefix, timeout_ms=timeout, seed=seed)
+            ctx.deadline = t0 + budget
+            ctx.options = dict(getattr(contract, "options", {}) or {})
+            ctx.thorough = tier == "thorough"
             ctx.known_regions = {k[len(contract.cid) + 1:]: v for k, v in known_regions.items() if k.startswith(contract.cid + "/")}
             interp = Interp(ctx, loopspecs=contract.loopspecs, unroll=contract.unroll,
                             summaries=build_summaries(contract))
             F = SymFactory(interp)
             completed = False
             try:
-                inp = contract.build(F)
+                try:
+                    inp = contract.build(F)
+                except PyExc as e:
+                    raise Unsupported("the contract's input builder raised %r" % (e,))
                 if not ctx.feasible():
                     raise PathEnd()
                 try:
@@ -82,8 +91,10 @@ def verify_contract(contract: Contract, tier="quick", seed=0, known_regions=None
                     out = Outcome(exc=e)
                 desc = out.describe() if out.exc is not None else "returned"
                 outcomes[desc[:120]] = outcomes.get(desc[:120], 0) + 1
-                for label, cond in contract.post(F, inp, out):
-                    ob = ctx.oblige("post" if out.exc is None else "xpost", label, cond, info=out.describe(), assume_after=False)
+                for item in contract.post(F, inp, out):
+                    label, cond = item[0], item[1]
+                    ob = ctx.oblige("post" if out.exc is None else "xpost", label, cond, info=out.describe(), assume_after=False,
+                                    parts=item[2] if len(item) > 2 else None)
                 for label, cond in contract.canaries(F, inp, out):
                     # a canary must be refutable: pc and not(cond) satisfiable on some path
                     r = ctx._check(z3.Not(cond if not isinstance(cond, bool) else z3.BoolVal(cond)))
@@ -114,7 +125,7 @@ def verify_contract(contract: Contract, tier="quick", seed=0, known_regions=None
                 if ob.status == "failed" and a["status"] != "failed":
                     a["status"] = "failed"
                     vals = model_values(ob.model, ctx.inputs)
-                    a["failure"] = {"inputs": vals, "path": ob.path, "info": ob.info, "line": ob.line}
+                    a["failure"] = {"inputs": vals, "path": ob.path, "info": ob.info, "line": ob.line, "detail": ob.detail}
                     a["failure"]["known"] = ob.known
                 elif ob.status == "failed" and ob.known != "inside" and a["failure"] is not None and a["failure"].get("known") == "inside":
                     # a second failing path that lies outside the known region: that one is reported
@@ -181,7 +192,8 @@ def summary_of(c):
         inp = c.summary_inputs(F, args, kwargs)
         interp.ctx.oblige("pre@call", "precondition of %s at the call site" % c.target.split(".")[-1], c.summary_pre(F, inp))
         res = c.summary_result(F, inp)
-        for label, cond in c.post(F, inp, _Out(res)):
+        for item in c.post(F, inp, _Out(res)):
+            label, cond = item[0], item[1]
             interp.ctx.assume(cond if not isinstance(cond, bool) else z3.BoolVal(cond))
         interp.ctx.used_models.add("callee contract used instead of body: %s" % c.cid)
         return res
